@@ -79,7 +79,7 @@ structure BlockTotal (c : Cutter) (r : Cutter × Option Err) : Prop where
   noPanic : r.2 ≠ some .panic
   noFuel : r.2 ≠ some .fuel
   cont : r.2 = none → r.1.OK ∧ c.bits.pos ≤ r.1.bits.pos
-  some : r.2 = some .someProgress → r.1.bits.WF
+  prog : r.2 = Option.some .someProgress → r.1.bits.WF
 
 theorem doStored_total (c : Cutter) (hc : c.OK) : BlockTotal c c.doStored := by
   obtain ⟨s1, s2, _⟩ := doStored_spec c
@@ -136,13 +136,24 @@ theorem getElem?_getD_nat (a : Array Nat) (i : Nat) (h : i < a.size) : a[i]? = s
 theorem take_ok' (b : Bitstream) (hb : b.Inv) (n : Nat) (hn : n ≤ 31) :
     (b.take n).2.bytes = b.bytes ∧
     (((b.take n).1 = mostNegativeInt32 ∧ 8 * b.bytes.size < b.pos + n) ∨
-      ((b.take n).1 = Int.ofNat (Spec.bitsLE b.bytes b.pos n) ∧ (b.take n).2.Inv ∧
+      ((b.take n).1 = ((Spec.bitsLE b.bytes b.pos n : Nat) : Int) ∧ (b.take n).2.Inv ∧
         (b.take n).2.pos = b.pos + n)) := by
   obtain ⟨h1, h2⟩ := take_spec b hb n hn
   refine ⟨h1, ?_⟩
   split at h2
   · exact Or.inr h2
   · left; exact ⟨h2, by omega⟩
+
+theorem getD_setIfInBounds_nat (s : Array Nat) (i j v : Nat) :
+    (s.setIfInBounds i v).getD j 0 = if j = i ∧ i < s.size then v else s.getD j 0 := by
+  simp only [Array.getD_eq_getD_getElem?, Array.getElem?_setIfInBounds]
+  by_cases h : i = j
+  · subst h
+    by_cases h2 : i < s.size
+    · simp [h2]
+    · simp [h2]
+  · have : ¬ (j = i ∧ i < s.size) := by omega
+    simp [h, this]
 
 theorem Inv.pos_le {b : Bitstream} (hb : b.Inv) : b.pos ≤ 8 * b.bytes.size := by
   have := hb.nBits_le; have := hb.index_le
